@@ -414,15 +414,19 @@ func (c *Cron) run(ctx *core.Context, job *CronJob) {
 	if c.running[job.Id] == job {
 		delete(c.running, job.Id)
 	}
-	c.Unlock()
 	if once || cancelled {
 		// A job that was removed or replaced while it was running
 		// must not come back (and must not push out its
 		// replacement).
 	} else {
+		// Still with the lock: if we let go of it here, the job
+		// would for a moment be neither pending nor running, and a
+		// Rem (or a replacing Add) at that moment would miss it.
+		//
 		// ToDo: Consider an error here.
-		c.schedule(ctx, job, false)
+		c.scheduleLocked(ctx, job, false)
 	}
+	c.Unlock()
 }
 
 func (c *Cron) stopTimer() {
@@ -517,10 +521,29 @@ func (c *Cron) schedule(ctx *core.Context, job *CronJob, checkLimit bool) error 
 	}
 
 	c.Lock()
+	defer c.Unlock()
+	return c.insertLocked(ctx, job, checkLimit)
+}
 
+// scheduleLocked is schedule for a caller that has the lock.
+func (c *Cron) scheduleLocked(ctx *core.Context, job *CronJob, checkLimit bool) error {
+	core.Log(core.INFO|CRON, ctx, "Cron.schedule", "job", *job, "name", c.Name)
+
+	if job.Expression != nil {
+		job.Next = job.Expression.Next(time.Now().UTC())
+		if job.Next.IsZero() {
+			// (See schedule.)
+			return nil
+		}
+	}
+	return c.insertLocked(ctx, job, checkLimit)
+}
+
+// insertLocked replaces the job of the same id, if any.  Assumes the
+// lock.
+func (c *Cron) insertLocked(ctx *core.Context, job *CronJob, checkLimit bool) error {
 	//remove existing job with the same id
 	if _, err := c.rem(ctx, job.Id); nil != err {
-		c.Unlock()
 		core.Log(core.WARN|CRON, ctx, "Cron.schedule", "error", err)
 		return err
 	}
@@ -538,7 +561,6 @@ func (c *Cron) schedule(ctx *core.Context, job *CronJob, checkLimit bool) error 
 		c.insert(ctx, job)
 	}
 
-	c.Unlock()
 	return err
 }
 
